@@ -75,10 +75,14 @@ def oracle(case, trace, ix, res, prefix='C07', focus=None):
     return waited
 
 
-def evaluate(case):
+def evaluate_one(case):
     res = Result()
     trace, ix = run_case(case, run_on=True)
     shape_labels(case, trace, res)
     res.nontrivial = oracle(case, trace, ix, res)
     res.sample = dict(outcome=trace.outcome, events=len(trace.events))
     return res
+
+
+from ._rt import with_variants                     # noqa: E402
+evaluate = with_variants(evaluate_one)
